@@ -17,6 +17,10 @@ def run(ctx):
     if not ctx.quick:
         multi += [(6, [Q, ANY, ANY, ANY, Q, TERM]), (10, [Q, ANY, BS, [ord('u')], ANY, ANY, ANY, ANY, Q, TERM]), (10, [Q, BS, [ord('u')], ANY, ANY, ANY, ANY, ANY, Q, TERM])]
     tokenizer(ctx, None, ALL, 'string tokens by class: "cc", "\\c", "\\uHHHH" with every byte of c / H free, "c\\cc"', variants=('nocb',), partition=0, multi=multi)
+    # numbers by class: every position free over the number alphabet and a blank (this is where `1E2`, `-0`, `1.`, `01` live)
+    NUMA = [ord(c) for c in '0123456789-+.eE '] + [0x0a]
+    ln = 5 if ctx.quick else 7
+    tokenizer(ctx, None, ALL, f'number tokens: {ln} bytes, each free over 0-9 - + . e E, blank and LF', variants=('nocb',), partition=1, multi=[(ln, [NUMA] * ln)])
     read_input(ctx, ['read.one_context_per_value'])
     from ..kani import kani_family
     ctx.run.bounds['from_f64'] = 'every finite f64 bit pattern'
